@@ -152,4 +152,14 @@ PROPS = {
         assumptions=["payload-level faults only; sending one sub-stream's bytes under another live schema id (splicing) and bit flips are outside the domain",
                      "after a damaged batch the sub-streams may be out of step: on the following batch only panics inside Consumer.Consume are reported"],
     ),
+    "C12": dict(
+        runs=[dict(harness="codec", name="framing",
+                   args=lambda tier, seed, casedir, coq: ["framing", "--n", str(q(tier, 80, 2000)), "--seed", str(seed)], timeout=3000, coq_timeout=3000)],
+        rule="stream histories of 2-7 batches on one producer: one signal or interleaved traces/logs/metrics, options default / no zstd / no dictionary / 8-bit dictionary limit (overflow) / 8-bit limit with "
+             "reset threshold 1.0 (reset), batches large enough to cross the dictionary limit; per payload the (type, stream key = [prefix:]SchemaToID) is fed to the model whose predicted batch ids and schema "
+             "ids must equal the observed ones; the property is evaluated on the real batches (first payload main, types unique, related payloads non-empty, schema id -> (type, key) a function, closed ids not "
+             "reused) and an independent ipc.Reader per schema id must decode every payload to the record that was written",
+        trusted_base=["arrow-go IPC writer/reader (one writer per live schema id; dictionary deltas/replacements; zstd) — validated on every run by the independent reader"],
+        assumptions=["a stream key belongs to one payload type (consistent_inputs): main keys are schema signatures of different schemas, related keys carry a per-type prefix"],
+    ),
 }
